@@ -44,48 +44,59 @@ theorem C13_refusal_codes (c : Ctx) (s : Str) (quoted allowText : Bool) (e : Cod
     (herr : writeChar c s quoted allowText = .error e) :
     (e = Gen.ErrCodes.CIF_DISALLOWED_CHAR ∧ validate11 s = false)
     ∨ (e = Gen.ErrCodes.CIF_DISALLOWED_VALUE ∧ (Model.analyze s (!quoted) false LINE).delimLength = 2
+        ∧ (allowText = false ∨ (Model.analyze s (!quoted) false LINE).containsTextDelim = true))
+    ∨ (e = Gen.ErrCodes.CIF_DISALLOWED_VALUE ∧ (13 : CU) ∈ s) := by
+  rcases Lemmas.WriterChar.writeChar_cases c s quoted allowText with ⟨e1, hcr⟩ | ⟨_, _, h2, _⟩ | ⟨e1, _⟩
+  · rw [e1] at herr; cases herr; exact Or.inr (Or.inr ⟨rfl, hcr⟩)
+  · rw [h1] at h2; cases h2
+  rw [e1] at herr
+  have hmain : (e = Gen.ErrCodes.CIF_DISALLOWED_CHAR ∧ validate11 s = false)
+      ∨ (e = Gen.ErrCodes.CIF_DISALLOWED_VALUE ∧ (Model.analyze s (!quoted) false LINE).delimLength = 2
         ∧ (allowText = false ∨ (Model.analyze s (!quoted) false LINE).containsTextDelim = true)) := by
-  have hc : (!c.isCif1) = false := by simp [h1]
-  have h3 := C13_no_triple s (!quoted) LINE
-  by_cases hv : c.isCif1 = true ∧ validate11 s = false
-  · rw [Lemmas.WriterChar.writeChar_invalid c s quoted allowText hv] at herr
-    cases herr
-    left; exact ⟨rfl, hv.2⟩
-  · rcases Lemmas.WriterChar.delimLength_cases s (!quoted) false LINE with d | d | d | d
-    · exfalso
-      rw [Lemmas.WriterChar.writeChar_delim0 c s quoted allowText hv (by rw [hc]; exact d)] at herr
-      obtain ⟨r, hr⟩ := Lemmas.WriterChar.writeUnquoted_ok c s (Model.analyze s (!quoted) (!c.isCif1) LINE).lengthMax
-      rw [hr] at herr; cases herr
-    · exfalso
-      rw [Lemmas.WriterChar.writeChar_delim1 c s quoted allowText hv (by rw [hc]; exact d)] at herr
-      obtain ⟨r, hr⟩ := Lemmas.WriterChar.writeQuoted_ok c s (Model.analyze s (!quoted) (!c.isCif1) LINE).length
-        ((Model.analyze s (!quoted) (!c.isCif1) LINE).delim.headD 0)
-      rw [hr] at herr; cases herr
-    · by_cases hr : allowText = false ∨ ((Model.analyze s (!quoted) (!c.isCif1) LINE).containsTextDelim = true ∧ c.isCif1 = true)
-      · rw [Lemmas.WriterChar.writeChar_delim2_refused c s quoted allowText hv (by rw [hc]; exact d) hr] at herr
-        cases herr
-        right
-        refine ⟨rfl, d, ?_⟩
-        rw [hc] at hr
-        rcases hr with h | h
-        · left; exact h
-        · right; exact h.1
+    have hc : (!c.isCif1) = false := by simp [h1]
+    have h3 := C13_no_triple s (!quoted) LINE
+    by_cases hv : c.isCif1 = true ∧ validate11 s = false
+    · rw [Lemmas.WriterChar.writeChar_invalid c s quoted allowText hv] at herr
+      cases herr
+      left; exact ⟨rfl, hv.2⟩
+    · rcases Lemmas.WriterChar.delimLength_cases s (!quoted) false LINE with d | d | d | d
       · exfalso
-        rw [Lemmas.WriterChar.writeChar_delim2 c s quoted allowText hv (by rw [hc]; exact d) hr] at herr
-        rw [hc] at herr
-        have hflags := C02_flags_semis s _ (Lemmas.WriterAnalysis.maxSemiRun_zero s (!quoted) false LINE)
-        have hex : ∃ body, textBody s (Lemmas.WriterChar.charFlags (Model.analyze s (!quoted) false LINE)).1
-            (Lemmas.WriterChar.charFlags (Model.analyze s (!quoted) false LINE)).2 = .ok body := by
-          rcases hflags with h | h | h
-          · exact ⟨s, by
-              have h' : (Lemmas.WriterChar.charFlags (Model.analyze s (!quoted) false LINE)).1 = false ∧
-                  (Lemmas.WriterChar.charFlags (Model.analyze s (!quoted) false LINE)).2 = false := h
-              simp [textBody, h']⟩
-          · exact C02_text_total s _ _ (Or.inl h)
-          · exact C02_text_total s _ _ (Or.inr h)
-        obtain ⟨body, hb⟩ := hex
-        simp [writeText, hb] at herr
-    · exact absurd d h3
+        rw [Lemmas.WriterChar.writeChar_delim0 c s quoted allowText hv (by rw [hc]; exact d)] at herr
+        obtain ⟨r, hr⟩ := Lemmas.WriterChar.writeUnquoted_ok c s (Model.analyze s (!quoted) (!c.isCif1) LINE).lengthMax
+        rw [hr] at herr; cases herr
+      · exfalso
+        rw [Lemmas.WriterChar.writeChar_delim1 c s quoted allowText hv (by rw [hc]; exact d)] at herr
+        obtain ⟨r, hr⟩ := Lemmas.WriterChar.writeQuoted_ok c s (Model.analyze s (!quoted) (!c.isCif1) LINE).length
+          ((Model.analyze s (!quoted) (!c.isCif1) LINE).delim.headD 0)
+        rw [hr] at herr; cases herr
+      · by_cases hr : allowText = false ∨ ((Model.analyze s (!quoted) (!c.isCif1) LINE).containsTextDelim = true ∧ c.isCif1 = true)
+        · rw [Lemmas.WriterChar.writeChar_delim2_refused c s quoted allowText hv (by rw [hc]; exact d) hr] at herr
+          cases herr
+          right
+          refine ⟨rfl, d, ?_⟩
+          rw [hc] at hr
+          rcases hr with h | h
+          · left; exact h
+          · right; exact h.1
+        · exfalso
+          rw [Lemmas.WriterChar.writeChar_delim2 c s quoted allowText hv (by rw [hc]; exact d) hr] at herr
+          rw [hc] at herr
+          have hflags := C02_flags_semis s _ (Lemmas.WriterAnalysis.maxSemiRun_zero s (!quoted) false LINE)
+          have hex : ∃ body, textBody s (Lemmas.WriterChar.charFlags (Model.analyze s (!quoted) false LINE)).1
+              (Lemmas.WriterChar.charFlags (Model.analyze s (!quoted) false LINE)).2 = .ok body := by
+            rcases hflags with h | h | h
+            · exact ⟨s, by
+                have h' : (Lemmas.WriterChar.charFlags (Model.analyze s (!quoted) false LINE)).1 = false ∧
+                    (Lemmas.WriterChar.charFlags (Model.analyze s (!quoted) false LINE)).2 = false := h
+                simp [textBody, h']⟩
+            · exact C02_text_total s _ _ (Or.inl h)
+            · exact C02_text_total s _ _ (Or.inr h)
+          obtain ⟨body, hb⟩ := hex
+          simp [writeText, hb] at herr
+      · exact absurd d h3
+  rcases hmain with h | h
+  · exact Or.inl h
+  · exact Or.inr (Or.inl h)
 
 /-- **Never silently altered (text fields).**  In CIF 1.1 mode, whenever `write_char` succeeds on a text that the analysis
     sends to a text field, what it wrote is `<LF>;` body `<LF>;`, every unit of the body is a CIF 1.1 character, and the
@@ -96,6 +107,7 @@ theorem C13_never_silently_alters (c : Ctx) (s : Str) (quoted : Bool) (out : Str
     (hdelim : (Model.analyze s (!quoted) false LINE).delimLength = 2)
     (hok : writeChar c s quoted true = .ok (out, c')) :
     ∃ body, out = (a!"\n;") ++ body ++ (a!"\n;") ∧ decodeText true true body = s ∧ validate11 body = true := by
+  have hok := (Lemmas.WriterChar.writeChar_ok c s quoted true (out, c') hok).2
   have hc : (!c.isCif1) = false := by simp [h1]
   have hA := C02_analysis_facts s (!quoted) false LINE hcr
   -- the text passed validation, and was not refused
